@@ -247,13 +247,13 @@ func (c *CoreRun) setHigh() {
 	}
 }
 
-// skipUntil is half a second into second T; an "old" event carries a CAS inside second T (its event time, which has
-// whole seconds only, is T: before skipUntil), any other event a CAS in second T+1: both classes sit at the boundary.
+// skipUntil is half a second into second T; an "old" event carries the last CAS of second T (its event time, which has
+// whole seconds only, is T: before skipUntil), any other event the first CAS of second T+1: both classes sit at the boundary.
 const skipSecond = 1700000000
 
 func (c *CoreRun) cas(old bool) uint64 {
 	if old {
-		return uint64(skipSecond)*1000000000 + 900000000
+		return uint64(skipSecond+1)*1000000000 - 1
 	}
 	return uint64(skipSecond+1) * 1000000000
 }
